@@ -334,3 +334,84 @@ def store_value(op):
 
 def is_none_const(e):
     return isinstance(e, ast.Constant) and e.value is None
+
+
+def provenance(expr, fr, F, _seen=None, depth=0):
+    """Flow-insensitive def-use closure of an expression inside one function
+    (analysis A8): the set of sources it may derive from --
+      ('param', name), ('path', canonical path), ('call', canonical path),
+      ('const', value), ('attr', name)  for attribute names read on the way.
+    Local names are expanded through *all* their definitions."""
+    out = set()
+    if expr is None:
+        return out
+    seen = _seen if _seen is not None else set()
+    f = fr.func
+    defs = F.b.local_defs(f)
+    for n in ast.walk(expr):
+        if isinstance(n, ast.Constant):
+            out.add(('const', n.value if isinstance(
+                n.value, (str, bytes, int, type(None), bool)) else repr(n.value)))
+        elif isinstance(n, ast.Call) and dotted(n.func):
+            p = F.b.canon(n.func, fr)
+            if p is not None:
+                out.add(('call', p))
+        elif isinstance(n, ast.Attribute):
+            out.add(('attr', n.attr))
+            if dotted(n):
+                p = F.b.canon(n, fr)
+                if p is not None and p[0] == 'self':
+                    out.add(('path', p))
+        elif isinstance(n, ast.Name):
+            if n.id in f.params and n.id not in defs:
+                out.add(('param', n.id))
+                if n.id in fr.bindings and fr.bindings[n.id][1] is not None \
+                        and depth < 6:
+                    e, pf, how = fr.bindings[n.id]
+                    if e is not None:
+                        out |= provenance(e, pf, F, None, depth + 1)
+            elif n.id in defs:
+                if n.id in f.params:
+                    out.add(('param', n.id))
+                key = (fr.id, n.id)
+                if key in seen:
+                    continue
+                seen.add(key)
+                for d in defs[n.id]:
+                    if isinstance(d, tuple):        # ('with', ctx expr)
+                        out |= provenance(d[1], fr, F, seen, depth)
+                    elif d is not None:
+                        out |= provenance(d, fr, F, seen, depth)
+                    else:
+                        out |= _unpack_sources(n.id, fr, F, seen, depth)
+            else:
+                p = F.b.canon(n, fr)
+                if p is not None:
+                    out.add(('path', p))
+    return out
+
+
+def _unpack_sources(name, fr, F, seen, depth):
+    """Definitions through tuple unpacking / for targets / augmented
+    assignment: use the right-hand side as a whole."""
+    from .model import walk_local
+    out = set()
+    for n in walk_local(fr.func.node):
+        val = None
+        tgt = None
+        if isinstance(n, ast.Assign):
+            for t in n.targets:
+                if isinstance(t, (ast.Tuple, ast.List)):
+                    tgt, val = t, n.value
+        elif isinstance(n, (ast.For, ast.comprehension)):
+            tgt, val = n.target, n.iter
+        elif isinstance(n, ast.AugAssign):
+            tgt, val = n.target, n.value
+        if tgt is not None and any(isinstance(e, ast.Name) and e.id == name
+                                   for e in ast.walk(tgt)):
+            out |= provenance(val, fr, F, seen, depth)
+    return out
+
+
+def prov_has(prov, kind, pred):
+    return any(k == kind and pred(v) for k, v in prov)
